@@ -374,7 +374,7 @@ def run(ctx):
                                               {"s": "block", "tag": "ul", "body": [{"s": "try", "body": [{"s": "reenter", "which": 0}]}, {"s": "display", "v": {"k": "none"}}]}]}],
     ]
     progs = list(fixed)
-    n = ctx.budget(2500, 60000)
+    n = ctx.budget(2500, 2000000)
     skel = 0
     for i in range(len(fixed) + n):
         if i < len(fixed):
